@@ -1498,6 +1498,9 @@ func body(r *vlib.Run) {
 	if r.OnlyTrial < 0 || r.OnlyMode == "equal" {
 		equalPairs(r)
 	}
+	if r.OnlyTrial < 0 || r.OnlyMode == "equal-shapes" {
+		shapesMode(r)
+	}
 	if r.OnlyTrial < 0 || r.OnlyMode == "client-enumerated" {
 		directedClient(r)
 	}
@@ -1517,13 +1520,14 @@ func main() {
 			"client: seeded queries (1-3 paths of 0-5 plain elements: non-empty, valid UTF-8, none of [ ] \\ =, no whitespace, '/' anywhere) plus the enumeration of all 1-2 element paths over {a, b/, /a, a/b, /, a//b, *}: real ToSubscribeRequest, marshal/unmarshal, then path.ToStrings, path.CompletePath and the specification index of every subscription path must equal the query elements. " +
 			"scalar: seeded values of 22 kinds (17 supported Go kinds incl. nested []interface{}, invalid UTF-8, unsupported types), ToScalar(FromScalar(x)) directly and through the wire against the widening specification (dynamic type and value). " +
 			"equal: all ordered pairs of a pool (fixed list with every oneof arm, a value without arm and nil; fixed and seeded near-neighbour families — Decimal64 with 8-18 significant digits differing by 1-3 in the last digit, equal decimals encoded differently, float/double differing in the last bit or only beyond float32 precision, ints/uints differing by 1 near 2^24, 2^53, 2^63, each also inside leaf-lists; filled to 360 / 800 with seeded values; every member through marshal/unmarshal, two independent copies): no panic, Equal(a,b)=Equal(b,a), Equal(a,b) => same arm and same content (exact), identical messages of the arms Equal handles => Equal. " +
+			"equal-shapes: all ordered pairs of 30 shapes and their 29 wire images, two independently built copies — Go-only TypedValue shapes taken RAW (decimal_val / leaflist_val / any_val wrapper holding a nil sub-message, nil byte payloads, leaf-lists with nil elements or with such wrappers as elements, the nil *TypedValue, a value without arm) plus ordinary neighbours: Equal must not panic, be symmetric, sound, and identify a shape with its own marshal->unmarshal image where that image is of an arm Equal documents (decimal, leaf-lists of handled values); ToScalar must not panic on any of them and must convert a shape like its wire image. " +
 			"concurrent: 64 / 256 trials of 4-16 goroutines under GOMAXPROCS 1-16, each indexing its own generated multi-key paths and 8 shared path objects through ToStrings / CompletePath and comparing every result with the specification it computed itself, plus Equal / FromScalar / ToScalar on shared read-only values with the same oracles. " +
 			"Distinct non-trivial: a path with a non-empty index; a prefix/path pair; a query with at least one element; a scalar whose conversion was judged; an ordered pair with at least one non-nil side — hashed by canonical input.",
 		Assumptions: []string{
 			"model.IndexPath / model.IndexPrefix (key values ordered by key name in byte order) are the specification of the index form",
 			"'plain' query element as fixed in DESIGN.md: non-empty, valid UTF-8, none of [ ] \\ =, no whitespace",
 			"the server indexes a subscription with path.ToStrings(path,false) and path.CompletePath(prefix,path) (subscribe.addSubscription / processSubscription); no gRPC transport, the wire is proto marshal/unmarshal",
-			"TypedValues compared by Equal have passed through the wire (no set oneof wrapper around a nil sub-message, no nil leaf-list elements)",
+			"the generated Equal pool is wire-normalised (marshal/unmarshal); Go-only shapes (oneof wrapper around a nil sub-message, nil leaf-list elements, nil byte payloads, nil *TypedValue) are judged raw in the equal-shapes mode; not covered: a oneof interface holding a typed-nil WRAPPER pointer, which protobuf-go treats as unset and on which the generated getters themselves panic",
 			"Equal is judged for totality, symmetry, soundness (exact content; two encodings of the same decimal number may compare either way) and for reporting identical messages of the arms it documents as handled (primitives and scalar arrays of them, NaN excluded) as equal; pairs with the same content in other arms (JSON, any, ascii, proto_bytes, no value, NaN) that it reports as different are counted, not judged",
 			"rejection of invalid UTF-8 inside a []string is recorded, not judged (the statement only asks for an unchanged round trip)",
 			"map-order independence is explored by repetition (Go randomises each range statement), not enumerated; the concurrent mode explores schedules by perturbation (goroutine count, GOMAXPROCS, GC pressure) — its verdict depends only on returned values, a replay re-runs the workload, not the schedule",
